@@ -2,7 +2,7 @@
 EXTENDS SpyneValidate, Json, IOUtils, SequencesExt
 ASSUME Effective
 ASSUME OffsetFree
-ASSUME JsonSerialize(IOEnv.OUT_FILE, [cases |-> SetToSeq(Cases), outcases |-> SetToSeq(OutCases), positions |-> SetToSeq(Positions),
+ASSUME JsonSerialize(IOEnv.OUT_FILE, [cases |-> SetToSeq(IF IOEnv.FAMILY = "thorough" THEN Cases \cup CasesMore ELSE Cases), outcases |-> SetToSeq(OutCases), positions |-> SetToSeq(Positions),
                                        families |-> SetToSeq(Families), textfamilies |-> SetToSeq(TextFamilies)])
 VARIABLE x
 Init == x = 0
